@@ -2611,6 +2611,9 @@ class RedunBackendDb(RedunBackend):
             for parent_handle in parent_handles
             if parent_handle.__handle__.fork_parent and not parent_handle.__handle__.is_recorded
         ]
+        # Handles are only marked as recorded once the rows are committed, so that a retry of this
+        # method after a transient database error records them again.
+        recorded: list[BaseHandle] = []
         while queue:
             _handle = queue.pop()
             get_or_create(
@@ -2624,7 +2627,7 @@ class RedunBackendDb(RedunBackend):
                 },
                 {"is_valid": True},
             )
-            _handle.__handle__.is_recorded = True
+            recorded.append(_handle)
             if _handle.__handle__.fork_parent:
                 fork_edges.append((_handle.__handle__.fork_parent, _handle))
                 queue.append(_handle.__handle__.fork_parent)
@@ -2641,7 +2644,7 @@ class RedunBackendDb(RedunBackend):
             },
             {"is_valid": True},
         )
-        child_handle.__handle__.is_recorded = True
+        recorded.append(child_handle)
 
         for parent_handle in parent_handles:
             # Get or create parent handle.
@@ -2656,7 +2659,7 @@ class RedunBackendDb(RedunBackend):
                 },
                 {"is_valid": True},
             )
-            parent_handle.__handle__.is_recorded = True
+            recorded.append(parent_handle)
 
             # Get or create handle edge.
             handle_edge, _ = get_or_create(
@@ -2679,6 +2682,8 @@ class RedunBackendDb(RedunBackend):
             )
 
         self.session.commit()
+        for handle in recorded:
+            handle.__handle__.is_recorded = True
 
     @db_retry
     @use_acquire
